@@ -11,7 +11,7 @@ use chumsky::Parser;
 
 pub const ID: &str = "C03";
 
-pub const RULE: &str = "cases = (grammar, input) with grammars of the C01/C02 classes plus validate(..) emitters and recover_with(..) nodes (C08 class); inputs derived/random as in C01 plus the bounded-exhaustive tier (small grammars x all strings over {a,b,c} up to length L). On every case the raw ParseResult of parse() and of check() is tested for: has_errors <=> errors non-empty; no output => >= 1 error; errors => into_result() is Err; no errors => output present and into_result() is Ok; an error-free result with output <=> the reference matches the ENTIRE input without emissions (output equal). For every cleanly accepted input w and every symbol c of the alphabet plus a foreign one, parse(w.c) must be rejected unless the reference matches w.c entirely. g.lazy() must accept iff the reference matches a prefix (same output). The accessors of every ParseResult (output, into_output, into_output_errors, into_errors, errors) must describe the same result as has_output / has_errors. NON-TRIVIAL = the reference matched a non-empty proper prefix of the input (where a missing end-of-input check would show), or the result has output and errors; distinct = distinct (sub-check, grammar, input). Regex tier (feature regex): regex(r1).then(regex(r2)) for every pair of 12 pattern templates (incl. nullable ones) x every string over {a b 0 e é} up to length 4 (5): an error-free parse() / check() result iff the two anchored regex-automata matches tile the ENTIRE input, and .lazy() accepts iff they match a prefix, with that extent.";
+pub const RULE: &str = "cases = (grammar, input) with grammars of the C01/C02 classes plus validate(..) emitters and recover_with(..) nodes (C08 class); inputs derived/random as in C01 plus the bounded-exhaustive tier (small grammars x all strings over {a,b,c} up to length L). On every case the raw ParseResult of parse() and of check() is tested for: has_errors <=> errors non-empty; no output => >= 1 error; errors => into_result() is Err; no errors => output present and into_result() is Ok; an error-free result with output <=> the reference matches the ENTIRE input without emissions (output equal). For every cleanly accepted input w and every symbol c of the alphabet plus a foreign one, parse(w.c) must be rejected unless the reference matches w.c entirely. g.lazy() must accept iff the reference matches a prefix (same output). The accessors of every ParseResult (output, into_output, into_output_errors, into_errors, errors) must describe the same result as has_output / has_errors. One random case in sixteen also runs on every other input representation; a long-Stream tier (a^n and a^n b for 13 lengths around the 512-token batch boundaries, Vec / filter / from_fn iterators, plain and boxed); templates for fixed-size collections whose item source ends short without any parser having failed. NON-TRIVIAL = the reference matched a non-empty proper prefix of the input (where a missing end-of-input check would show), or the result has output and errors; distinct = distinct (sub-check, grammar, input). Regex tier (feature regex): regex(r1).then(regex(r2)) for every pair of 12 pattern templates (incl. nullable ones) x every string over {a b 0 e é} up to length 4 (5): an error-free parse() / check() result iff the two anchored regex-automata matches tile the ENTIRE input, and .lazy() accepts iff they match a prefix, with that extent.";
 
 pub const ASSUMPTIONS: &[&str] = &[
     "reference PEG evaluator (harness/src/reference.rs) decides 'matches the entire input'; admissible variants V-lead / V-trail-cap are all tried",
